@@ -38,15 +38,16 @@ func (q *qpsLimiter) getInterval() time.Duration {
 }
 
 func (q *qpsLimiter) update(maxQPS int32, qpsInterval time.Duration) {
-	if maxQPS == q.limit && qpsInterval == q.interval {
+	if maxQPS == atomic.LoadInt32(&q.limit) && qpsInterval == q.interval {
 		return
 	}
-	q.limit = maxQPS
+	// limit and once are read by the ticker goroutine
+	atomic.StoreInt32(&q.limit, maxQPS)
 	once := maxQPS / int32(time.Second/qpsInterval)
 	if once == 0 {
 		once = 1
 	}
-	q.once = once
+	atomic.StoreInt32(&q.once, once)
 	if qpsInterval != q.interval {
 		q.interval = qpsInterval
 		q.stopTicker()
@@ -75,13 +76,14 @@ func (q *qpsLimiter) stopTicker() {
 
 func (q *qpsLimiter) updateToken() {
 	var v int32
+	once, limit := atomic.LoadInt32(&q.once), atomic.LoadInt32(&q.limit)
 	v = atomic.LoadInt32(&q.tokens)
 	if v < 0 {
-		v = q.once
-	} else if v+q.once > q.limit {
-		v = q.limit
+		v = once
+	} else if v+once > limit {
+		v = limit
 	} else {
-		v = v + q.once
+		v = v + once
 	}
 	atomic.StoreInt32(&q.tokens, v)
 }
